@@ -344,9 +344,41 @@ pub fn run(ctx: &'static Ctx) -> (&'static str, Value, Vec<&'static str>) {
         check_truncations(ctx, b, if !has_fixed { 1 } else if thorough { 7 } else { 61 }, &mut s4);
     }
     s4.count("truncation_base_streams", bases.len() as u64);
-    let stats = s1.merge(s2).merge(s3).merge(s4);
+    // history: sequences of <= 3 decode calls on one fresh thread over an alphabet with large,
+    // small, fixed-frame-heavy, truncated and garbage inputs; each must equal its history-free result
+    let halpha: Vec<Vec<u8>> = {
+        let st = |syms: &[usize]| -> Vec<u8> { syms.iter().enumerate().flat_map(|(i, s)| message_bytes(*s, i)).collect() };
+        let mut trunc = st(&[9, 7]);
+        trunc.truncate(3000);
+        let long_fixed: Vec<usize> = (0..40).map(|i| [0usize, 3, 4][i % 3]).collect();
+        vec![st(&[7, 0, 8]), st(&[9]), st(&[10, 11, 1]), trunc, vec![0xFFu8; 100], vec![], st(&long_fixed), st(&[6, 6])]
+    };
+    let sh = history_check(
+        ctx,
+        "decode_messages",
+        halpha.len(),
+        3,
+        |i| match decode_stream(halpha[i].clone()) {
+            Caught::Ret(Ok(v)) => format!("ok:{}:{:016x}", v.len(), fnv64(format!("{:?}", v.iter().map(|m| (m.header().sequence_number, m.header().time, matches!(m.contents(), dm::MessageContents::Other))).collect::<Vec<_>>()).as_bytes())),
+            Caught::Ret(Err(_)) => "err".to_string(),
+            Caught::Panic(p) => format!("panic:{}", panic_class(&p)),
+        },
+        |i| format!("input#{i}({} bytes)", halpha[i].len()),
+    );
+    // short-read environment: the stream arrives through a reader whose reads stop at arbitrary offsets
+    let mut ssr = Stats::new();
+    {
+        use crate::guard::{short_read_check, SplitReader};
+        for syms in [vec![7usize, 0, 8], vec![9], vec![10, 7], vec![0, 3, 6]] {
+            let bytes: Vec<u8> = syms.iter().enumerate().flat_map(|(i, s)| message_bytes(*s, i)).collect();
+            let n = short_read_check(ctx, "decode_messages", &bytes, false, |r: &mut SplitReader| dm::decode_messages(r).ok(), |shape| json!({"op": "short_read", "symbols": syms, "boundaries": shape.0, "max_chunk": shape.1}));
+            ssr.evaluations += n;
+            ssr.count("short_read_shapes", n);
+        }
+    }
+    let stats = s1.merge(s2).merge(s3).merge(s4).merge(sh).merge(ssr);
     let cov = stats.coverage(
-        "all streams over a 9-kind alphabet {status, VCP, type 15, type 3, type 18, unknown 200, type-31 with 0 / 4 / 10 blocks} and, one message shorter, over 12 kinds (+ 1840-gate radial larger than a frame, 51-cut VCP, 257-gate 16-bit PHI radial) of length 0..=5 (thorough 0..=6), each message stamped with its position; all 256x16 (thorough 256x256) two-frame type-code pairs; three 300-message streams; runs of 1..=40,64,100,133..135,150 (thorough 1..=150) consecutive fixed frames, a radial, and a second run; truncations of a base set: every cut for type-31-only streams, every cut within 200 bytes of a message boundary plus a stride inside fixed frames. Differential oracle: message i equals the same bytes decoded alone. non-trivial = >=2 messages or a truncation; distinct by content hash",
+        "all streams over a 9-kind alphabet {status, VCP, type 15, type 3, type 18, unknown 200, type-31 with 0 / 4 / 10 blocks} and, one message shorter, over 12 kinds (+ 1840-gate radial larger than a frame, 51-cut VCP, 257-gate 16-bit PHI radial) of length 0..=5 (thorough 0..=6), each message stamped with its position; all 256x16 (thorough 256x256) two-frame type-code pairs; three 300-message streams; runs of 1..=40,64,100,133..135,150 (thorough 1..=150) consecutive fixed frames, a radial, and a second run; truncations of a base set: every cut for type-31-only streams, every cut within 200 bytes of a message boundary plus a stride inside fixed frames. History: every sequence of <= 3 decode calls over 8 inputs on a fresh thread; short-read reader shapes. Differential oracle: message i equals the same bytes decoded alone. non-trivial = >=2 messages or a truncation; distinct by content hash",
         true,
         json!({"alphabet": SYMBOLS, "max_length": maxlen}),
     );
@@ -379,6 +411,9 @@ pub fn replay(ctx: &'static Ctx, case: &Value) {
             println!("replay truncate {:?} cut {cut}: {:?}", syms, r.ret().map(|r| r.map(|v| v.len())));
             let mut st = Stats::new();
             check_truncations(ctx, &syms, 1, &mut st);
+        }
+        Some("history") | Some("short_read") => {
+            let _ = run(ctx);
         }
         _ => machinery("C03 replay: unknown op"),
     }
